@@ -412,12 +412,15 @@ class Spectrum(object):
 
         # If sides is indeed different, update the psd
         if self.__psd is not None:
+            if self.modified is True:
+                # pending changes: refresh the estimate before converting it
+                _ = self.psd
             newpsd = self.get_converted_psd(sides)
             self.__psd = newpsd
+            # we set the PSD by hand, so we can consider that PSD is up-to-date
+            self.modified = False
         self.__sides = sides
         logging.debug('------------> %s %s' % (self.__sides, sides))
-        # we set the PSD by hand, so we can consider that PSD is up-to-date
-        self.modified = False
     _doc_sides = """Getter/Setter to the :attr:`sides` attributes.
 
     It can be 'onesided', 'twosided', 'centerdc'. This setter changes
